@@ -1,6 +1,6 @@
 SPECIFICATION Spec
 CONSTANTS
   MaxOps = 3
-  Starts = {"lib-absent", "all-present", "companion-mismatch"}
+  Starts = {"lib-absent", "all-present", "companion-mismatch", "nothing"}
 INVARIANTS TypeOK ExeDefined Report
 CHECK_DEADLOCK FALSE
